@@ -124,11 +124,15 @@ def solve(raw, mip_rel_gap=0.0, time_limit=60.0, maximize_value=True):
         lo[mE] = raw.b[mE]
         hi[mE] = raw.b[mE]
         cons = [LinearConstraint(A, lo, hi)]
+    # presolve off: the HiGHS build inside scipy 1.14.1 reports some feasible MIPs as infeasible
+    # when its MIP presolve is on (reproduced on a 7-variable problem, see DESIGN.md 6.2)
     res = milp(raw.c, constraints=cons, integrality=integrality, bounds=Bounds(raw.l, raw.u),
-               options={"mip_rel_gap": mip_rel_gap, "time_limit": time_limit, "presolve": True})
+               options={"mip_rel_gap": mip_rel_gap, "time_limit": time_limit, "presolve": False})
     st = {0: "optimal", 2: "infeasible", 3: "unbounded"}.get(res.status, "other")
     if st == "optimal":
-        return st, np.asarray(res.x), float(-raw.c @ res.x)
+        x = np.asarray(res.x)
+        x[raw.bools] = np.round(x[raw.bools])
+        return st, x, float(-raw.c @ x)
     return st, None, None
 
 
